@@ -46,7 +46,7 @@ func show(v interface{}) string {
 // C03: generic decoding == model tree (== encoding/json modulo invalid UTF-8).
 func RunC03(c *Ctx) {
 	var long rjson.ValueReader
-	fams := []string{"W3", "W1", "W4", "W2small", "W2T", "W1R", "W5small"}
+	fams := []string{"W3", "W1", "W4", "W2small", "W2T", "W1R", "W5small", "W6docs"}
 	c.RunDocs(fams, func(cs *h.Case) {
 		d := cs.Input
 		m := c.Parse(cs)
